@@ -383,7 +383,7 @@ fn single(loc: usize, dur: f64, windows: Vec<Win>, kind: Kind, size: i32, value:
 
 fn build_grid_case(desc: &GridDesc) -> Case {
     // line 0..3 for distances, durations twice as long
-    let geo = Geo { coords: vec![(0, 0), (1, 0), (2, 0), (3, 0)], dist: Metric::Line, dur: Metric::Line, dur_scale: 2 };
+    let geo = Geo { coords: vec![(0, 0), (1, 0), (2, 0), (3, 0)], dist: Metric::Line, dur: Metric::Line, dur_scale: 2, tilt: false };
     let v0 = VehicleSpec { start_loc: 0, start_time: 0., end_loc: desc.closed.then_some(0), end_time: None, capacity: 10, fixed: 7., per_distance: 2., per_time: 1. };
     let v1 = VehicleSpec { start_loc: 2, start_time: 0., end_loc: (!desc.closed).then_some(3), end_time: None, capacity: 10, fixed: 100., per_distance: 1., per_time: 0.5 };
     let mut jobs = Vec::new();
